@@ -243,6 +243,22 @@ Section C13.
     intros private params es ks2 H2. exact (keyset_export_stable hashnew ks ks' private params es ks2 H H2).
   Qed.
 
+  (* every key of a set built by KeySet(keys) — hence import_key_set and
+     generate_key_set, which end in that constructor — has a kid: the one it
+     came with (whatever its value, also ""), kept with the whole key
+     unchanged; else its thumbprint, with no other member changed *)
+  Theorem c13_keyset_every_key_has_kid : forall ks ks',
+    keyset_init hashnew ks = Ok ks' ->
+    Forall2 (fun k k' =>
+               ko_cls k' = ko_cls k /\
+               match kid_of k with
+               | Some v => k' = k /\ kid_of k' = Some v
+               | None => exists t, key_thumbprint hashnew (ko_cls k) (ko_dict k) = Ok t /\
+                                   kid_of k' = Some (PStr t) /\
+                                   (forall m, m <> s_kid -> dget (ko_dict k') m = dget (ko_dict k) m)
+               end) ks ks'.
+  Proof. exact (keyset_every_key_has_kid hashnew). Qed.
+
   Theorem c13_keyset_export_kids : forall ks private params es ks2,
     Forall (fun k => In (ko_cls k) key_classes) ks -> ~ In s_kid (dkeys params) ->
     keyset_as_dict hashnew ks private params = Ok (es, ks2) ->
@@ -381,5 +397,6 @@ Print Assumptions c13_kid_exported.
 Print Assumptions c13_export_no_alias.
 Print Assumptions c13_export_function_of_state.
 Print Assumptions c13_keyset.
+Print Assumptions c13_keyset_every_key_has_kid.
 Print Assumptions c13_keyset_export_kids.
 Print Assumptions c13_validated_has_members.
